@@ -78,6 +78,8 @@ def F1_forms(t, unicode_mode, form, ign, fi, fm, fs, fx, fa, single, via_list):
             r = sp.expect(arg)
     if r != 'R':
         return 0
+    if not single and (len(arg) != 1 or arg[0] is not pat):
+        return 0                            # the caller's own list was changed (a re-used list would mean something else)
     items = _Rec.last.searcher._searches
     if len(items) != 1 or items[0][0] != 0:
         return 0
